@@ -91,3 +91,29 @@ def unobj(t: Any) -> Any:
 def elem_of(t: Any, it: Any) -> bool:
     """t is the loop / comprehension variable ranging over ``it`` (at any nesting depth)."""
     return isinstance(t, tuple) and len(t) == 3 and t[0] == "elem" and t[1] == it
+
+
+def dnf(t: Any, cap: int = 64) -> list:
+    """Disjunctive normal form of a condition term: list of conjunctions (tuples of literals)."""
+    if t == sym.TRUE:
+        return [()]
+    if t[0] == "or":
+        out: list = []
+        for x in t[1:]:
+            out += dnf(x, cap)
+        return out[:cap]
+    if t[0] == "and":
+        out = [()]
+        for x in t[1:]:
+            out = [a + b for a in out for b in dnf(x, cap)][:cap]
+        return out
+    return [(t,)]
+
+
+def branches(t: Any, conds: tuple = ()):
+    """(conditions, leaf) for every alternative of a nested conditional term."""
+    if isinstance(t, tuple) and t and t[0] == "ifexp":
+        yield from branches(t[2], conds + (t[1],))
+        yield from branches(t[3], conds + (sym.mk_not(t[1]),))
+    else:
+        yield conds, t
